@@ -597,7 +597,7 @@ func init() {
 	sgRegister("C08", "case = local direction/track changes and remote (pion and foreign) re-offers over all four directions; oracle on every created answer = RFC 3264 §6.1 direction table per section.")
 	sgRegister("C09", "case = alternating renegotiations with additions, removals and stops; oracle = a transceiver's mid never changes, a mid keeps its section index in every generated description, no index is renamed, new transceivers do not reuse an earlier mid.")
 	sgRegister("C10", "case = random MediaEngine variants (remapped payload types, RTX with and without primary, direction-limited header extensions), random codec preferences, foreign offers with remapped payload types and extmap ids; oracle per generated media section = payload types unique, rtpmap/fmtp/rtcp-fb/apt refer to listed payload types, extmap ids unique in 1..14, URIs unique.")
-	sgRegister("C12", "case = AddTrack/AddTransceiverFromKind/FromTrack (all directions, RTX codecs on/off), RemoveTrack, ReplaceTrack, CreateDataChannel, each followed by CreateOffer under Unified Plan; oracle = bijection transceivers<->media sections with mid/kind/direction, msid and SSRC (incl. FID/FEC-FR groups) of every sending track, application section iff data channel or AlwaysNegotiateDataChannels.",
+	sgRegister("C12", "case = AddTrack/AddTransceiverFromKind/FromTrack (all directions, RTX codecs on/off), simulcast senders (a rid track plus AddEncoding), RemoveTrack, ReplaceTrack, CreateDataChannel, each followed by CreateOffer under Unified Plan; oracle = bijection transceivers<->media sections with mid/kind/direction, msid and SSRC (incl. FID/FEC-FR groups) of every sending track, application section iff data channel or AlwaysNegotiateDataChannels.",
 		"the 'only if' direction of the application-section clause is skipped once a remote description carried an application section")
 	sgRegister("C16", "case = foreign and pion offers with remapped payload types, RTX, FEC and unsupported codecs against random local MediaEngine variants and codec preferences; oracle per answer section = every payload type is listed in the offer section and maps to the same codec.")
 	sgRegister("C39", "case = random initial configurations and SetConfiguration calls with each field changed/unchanged/zero (peer identity, certificates, bundle policy, RTCP mux policy, pool size, valid/invalid ICE servers, transport policy), before and after SetLocalDescription and after Close; oracle = rejected calls leave GetConfiguration deep-equal, immutable changes return InvalidModificationError, invalid ICE servers are rejected without partial changes.")
